@@ -428,14 +428,17 @@ impl Hypercore {
         let clear_offset = match self.tree.byte_offset(start, None)? {
             Either::Right(value) => value,
             Either::Left(instructions) => {
-                let new_infos = self.storage.read_infos_to_vec(&instructions).await?;
-                infos.extend(new_infos);
-                match self.tree.byte_offset(start, Some(&infos))? {
-                    Either::Right(value) => value,
-                    Either::Left(_) => {
-                        return Err(HypercoreError::InvalidOperation {
-                            context: format!("Could not read offset for index {start} from tree"),
-                        });
+                // Nodes served from the node cache in one round can have been evicted by
+                // the next one, so keep reading until every needed node has been read.
+                let mut instructions = instructions;
+                loop {
+                    let new_infos = self.storage.read_infos_to_vec(&instructions).await?;
+                    infos.extend(new_infos);
+                    match self.tree.byte_offset(start, Some(&infos))? {
+                        Either::Right(value) => break value,
+                        Either::Left(new_instructions) => {
+                            instructions = new_instructions;
+                        }
                     }
                 }
             }
